@@ -1,11 +1,11 @@
 CONSTANTS
-  Mods <- DiamondMods
-  Imports <- DiamondImports
-  Targets <- DiamondTargets
-  Variants <- V2
-  BodyOf <- Body2
+  Mods <- PairMods
+  Imports <- PairImports
+  Targets <- PairTargets
+  Variants <- V124
+  BodyOf <- Body124
   MaxOps = 4
-  MaxT = 0
+  MaxT = 2
   AstHash = TRUE
   MaxTorn = 1
   TransitiveKey = FALSE
